@@ -260,7 +260,14 @@ func (p *Prog) contractFor(fn *ssa.Function) *Contract {
 }
 
 func (p *Prog) trustedByShort(key string) *Contract {
-	return p.cs.Funcs[key]
+	if c, ok := p.cs.Funcs[key]; ok {
+		return c
+	}
+	// in-module pure function named pkg.Func
+	if fn := p.externalByShort(key); fn != nil {
+		return p.cs.Funcs[p.funcKey(fn)]
+	}
+	return nil
 }
 
 func (p *Prog) externalByShort(key string) *ssa.Function {
